@@ -150,6 +150,19 @@ DecWidth(sub) == IF IntWidth(sub) > 0 THEN IntWidth(sub)
                  ELSE IF sub \in {S_ULAW, S_ALAW, S_IMA, S_MS, S_GSM, S_VOX, S_NMS16, S_NMS24, S_NMS32,
                                   S_G721_32, S_G723_24, S_G723_40, S_DPCM8} THEN 16 ELSE 0
 
+\* width u of the integer that sf_read_float / sf_read_double deliver with normalisation off: the left-justified 32 bit value L of the
+\* decoder divided by 2^(32-u).  The PCM readers and the 16 bit codecs deliver the stored w-bit integer (u = w), PAF-24 its 24 bit
+\* integer, the ALAC and DWVW decoders the left-justified value itself (u = 32).  0: no rule (MIDI Sample Dump of 8 and 24 bit data
+\* divides L by 2^w, which is neither).
+UnnormWidth(fmt) ==
+    LET sub == Sub(fmt) IN
+    IF Major(fmt) = M_SDS THEN (IF sub = S_PCM_16 THEN 16 ELSE 0)
+    ELSE IF sub \in {S_ALAC16, S_ALAC20, S_ALAC24, S_ALAC32, S_DWVW12, S_DWVW16, S_DWVW24} THEN 32
+    ELSE IF sub \in {S_PCM_S8, S_PCM_U8, S_DPCM8} THEN 8
+    ELSE IF sub = S_PCM_24 THEN 24
+    ELSE IF sub = S_PCM_32 THEN 32
+    ELSE IF DecWidth(sub) = 16 THEN 16 ELSE 0
+
 \* (frames are logged clamped to 2^31-1 with frbig = 1 for larger counts -- a pipe of unknown length reports SF_COUNT_MAX -- and frneg = 1 for negative ones)
 Sane(info) == /\ info.ch >= 1 /\ info.ch <= 1024 /\ info.rate >= 1 /\ info.fr >= 0 /\ info.frneg = 0
               /\ info.sec >= 1 /\ Major(info.fmt) \in KnownMajors /\ Sub(info.fmt) \in KnownSubs
